@@ -2,7 +2,7 @@
 
   inline_calls   C09: every application written outside macro bodies becomes
                      t_i :=|= arg_i  (bound at the call site, before the block opens)
-                     { q_i :=|= t_i ; body[p_i -> q_i] with {{code}} splices pasted }
+                     { p_i :=|= t_i ; body with {{code}} splices pasted }
   hand_expand    C10: .if replaced by the statements of the selected branch, .for by one block per
                      value with the loop variable substituted by its literal value (outside macro bodies)
   rename         C08: consistent renaming of one scope-local name
@@ -175,10 +175,11 @@ def inline_calls(ir):
                     t, q = f"t_{n}_{i}", f"q_{n}_{i}"
                     eg = is_eager(a)
                     binds_out.append({"k": "const", "n": t, "e": a, "eager": eg})
-                    binds_in.append({"k": "const", "n": q, "e": ["id", t], "eager": eg})
-                    mapping[p] = q
+                    # the parameter keeps its own name inside the block (the property binds "each parameter"; nested
+                    # applications written in the body see it through the call-site scope exactly as the macro's do)
+                    binds_in.append({"k": "const", "n": p, "e": ["id", t], "eager": eg})
                     if eg:
-                        eager.update((t, q))
+                        eager.update((t, p))
                 body = subst_names(paste_splices(m["b"], code), mapping)
                 out += binds_out
                 out.append({"k": "block", "b": binds_in + body})
